@@ -475,13 +475,13 @@ class Parser:
                     )
 
     def expand_expression(self, name: str, expr: str) -> Tuple[str, int]:
-        rdepth_limit = 10
-        n = 0
+        # every occurrence of a symbol is replaced by its (already evaluated) value in one
+        # step, so meeting a symbol a second time means its value brought it back
+        substituted = set()
         symbol_regex = r"\b(?P<symbol>[a-zA-Z_]+\w*)\b"
         m = re.search(symbol_regex, expr)
         while m:
             symbol = m.group()
-            n += 1
             try:
                 c = self.constants[symbol]
             except KeyError:
@@ -499,12 +499,13 @@ class Parser:
                     f"{c.name} has not been evaluated to a value."
                 )
 
-            expr = re.sub(rf"\b{c.name}\b", str(c.value), expr)
-
-            if n > rdepth_limit:
+            if symbol in substituted:
                 raise RecursionError(
                     f"Recursion limit reached expanding constant expression {name} in {self.current_file}"
                 )
+            substituted.add(symbol)
+
+            expr = re.sub(rf"\b{c.name}\b", str(c.value), expr)
 
             # Try to match another macro symbol
             m = re.search(symbol_regex, expr)
